@@ -28,14 +28,15 @@ for line in sys.stdin:
     if cmd["op"] == "load":
         m = load_model(path, dtype=cmd["dtype"], platform="dll")
         k = m.make_kernel([np.array([1.0, 2.0, 3.0])])
-        r = call_kernel(k, dict(scale=1.0, background=0.0))
+        r = call_kernel(k, dict(scale=1.0, background=0.0, s=1.0))
+        r0 = call_kernel(k, dict(scale=1.0, background=0.0))      # at the DEFAULT of s, which lives in the definition only
         k.release()
         import os
         from sasmodels import generate
         src = generate.make_source(m.info)["dll"]
         tag = generate.tag_source(src)
         mk = re.search(r"VERIF_K (\d+)", src)
-        print(json.dumps([float(x) for x in r] + [m.info.id, tag, os.path.basename(m.dllpath), int(mk.group(1)) if mk else -1])); sys.stdout.flush()
+        print(json.dumps([float(x) for x in r] + [m.info.id, tag, os.path.basename(m.dllpath), int(mk.group(1)) if mk else -1, float(r0[0] / r[0])])); sys.stdout.flush()
     elif cmd["op"] == "quit":
         break
 """
@@ -45,11 +46,13 @@ NAMES = ["verif_c17", "verif_c17_" + "long_plugin_name_" * 4 + "x"]      # 9 and
 
 
 def model_text(mid, name="verif_c17"):
+    """text `mid` of the model file: the formula constant is mid % 20 and the DEFAULT of the parameter s is
+    1 + mid // 20 - two texts 20 apart generate the same C source and differ only in the definition."""
     extra = '    ["extra", "", 0.0, [-10, 10], "", ""],\n' if mid % 2 else ""
     return ('name = "%s"\ntitle = "C17 probe"\ndescription = "text %d"\ncategory = "shape:sphere"\n'
-            'parameters = [\n    ["s", "", 1.0, [-10, 10], "", ""],\n%s]\n'
+            'parameters = [\n    ["s", "", %d.0, [-10, 10], "", ""],\n%s]\n'
             'source = ["%s_helper.c"]\n'
-            'Iq = "return %d.0*q + helper_value() + VERIF_H*q*q;"\n' % (name, mid, extra, name, mid))
+            'Iq = "return (%d.0*q + helper_value() + VERIF_H*q*q)*s;"\n' % (name, mid, 1 + mid // 20, extra, name, mid % 20))
 
 
 def c_text(cid):
@@ -144,6 +147,9 @@ def gen_history(rng, n):
         if r < 0.45:
             f = rng.choice("MMMCCHK")
             tid = rng.choice(seen[f]) if rng.random() < 0.4 else rng.randint(1, 40)      # revert or new text
+            if f == "M" and rng.random() < 0.3:
+                # an edit of the definition that leaves the generated C untouched: only the default of s changes
+                tid = cur[f][0] % 20 + 20 * rng.choice([k for k in (0, 1, 2) if k != cur[f][0] // 20])
             t = cur[f][1] + rng.choice([1, 1, 2, 5])
             cur[f] = (tid, t); seen[f].append(tid)
             ops.append(("Edit", f, tid, t))
@@ -177,7 +183,7 @@ def run_history(root, idx, init, ops):
                 m = r2 - r1 - 3 * h
                 c = r1 - m - h
                 names.append((str(op[1]), vals[3], vals[4], vals[5]))
-                obs.append((int(round(m)), int(round(c)), int(round(h)), int(vals[6])))
+                obs.append((int(round(m)) + 20 * (int(round(vals[7])) - 1), int(round(c)), int(round(h)), int(vals[6])))
         libs = sorted(f for f in os.listdir(w.cache) if f.endswith(".so"))
         return dict(init={f: list(v) for f, v in init.items()}, ops=[list(o) for o in ops], observed=obs, libs=libs, errors=errors, plugin_name=name, names=names,
                     loaded_by="bare name via SAS_MODELPATH" if bare else "path")
